@@ -143,3 +143,77 @@ theorem decodeSimple_bin (g : Grammar) (hs : NumSafe g = true) (hg : g.binPatter
   rw [decodeQuoted_head_num ⟨g, .pvl⟩ 50 _ h50 hq, decodeNonDecimal_bin g hg bits hb hne]
 
 end Pvl
+
+namespace Pvl
+open Py Enc
+
+/-- first character of a decimal number's text: a digit, a sign or the point -/
+def RealHead (c : Nat) : Prop := NumCh c ∨ c = 43 ∨ c = 46
+
+theorem casefold_realHead (c : Nat) (h : RealHead c) (r : Str) : casefold (c :: r) = 0x110000 :: casefold r := by
+  rcases h with h | h | h
+  · exact casefold_numCh c h r
+  · subst h
+    have hf : Gen.pyCasefold.find? (fun p => p.1 == 43) = none := by decide
+    simp [casefold, List.flatMap_cons, hf]
+  · subst h
+    have hf : Gen.pyCasefold.find? (fun p => p.1 == 46) = none := by decide
+    simp [casefold, List.flatMap_cons, hf]
+
+/-- `NumSafe`, and no quotation mark is `+` or `.` -/
+def RealSafe (g : Grammar) : Bool := NumSafe g && g.quotes.all (fun q => q != 43 && q != 46)
+
+theorem foldEq_head_real (c : Nat) (r kw : Str) (hc : RealHead c)
+    (hk : ((casefold kw).head? != some 0x110000) = true) : foldEq (c :: r) kw = false := by
+  unfold foldEq
+  rw [casefold_realHead c hc]
+  cases hkw : casefold kw with
+  | nil => simp
+  | cons k kr =>
+    rw [hkw] at hk
+    simp at hk
+    simp
+    intro h; exact absurd h.symm hk
+
+theorem decodeQuoted_head_real (d : Dec) (c : Nat) (r : Str) (hc : RealHead c)
+    (hq : d.g.quotes.all (fun q => !isDigit q && q != 45) = true)
+    (hq2 : d.g.quotes.all (fun q => q != 43 && q != 46) = true) : decodeQuoted d (c :: r) = none := by
+  rcases hc with hc | hc
+  · exact decodeQuoted_head_num d c r hc hq
+  · have hb : decodeQuotedBase d.g (c :: r) = none := by
+      unfold decodeQuotedBase
+      have : d.g.quotes.any (fun q => startsWith (c :: r) [q] && endsWith (c :: r) [q] &&
+          decide ((c :: r).length > 1)) = false := by
+        rw [List.any_eq_false]
+        intro q hqm
+        simp only [Bool.and_eq_true, decide_eq_true_eq, not_and]
+        intro hst
+        exfalso
+        have hh := startsWith_head (c :: r) q hst.1
+        simp at hh
+        subst hh
+        have := (List.all_eq_true.mp hq2) c hqm
+        simp only [Bool.and_eq_true, bne_iff_ne, ne_eq] at this
+        rcases hc with h1 | h1
+        · exact this.1 h1
+        · exact this.2 h1
+      rw [if_neg (by rw [this]; simp)]
+    unfold decodeQuoted
+    rw [hb]
+    cases d.kind <;> rfl
+
+/-- **a decimal real's text denotes itself**: a text that begins with a digit, a sign or the point, holds no
+    `#`, has `float()`'s syntax and is not an integer literal is decoded — by every decoder whose table
+    passes `RealSafe` — to the real that carries exactly that text -/
+theorem decodeSimple_real (d : Dec) (hs : RealSafe d.g = true) (c : Nat) (r : Str) (hc : RealHead c)
+    (h35 : 35 ∉ c :: r) (hf : floatOk (c :: r) = true) (hi : int10 (c :: r) = none) :
+    decodeSimple d (c :: r) = .ok (.real (c :: r)) := by
+  simp only [RealSafe, NumSafe, Bool.and_eq_true, List.all_cons, List.all_nil, Bool.and_true] at hs
+  obtain ⟨⟨⟨hk1, hk2, hk3⟩, hq⟩, hq2⟩ := hs
+  unfold decodeSimple
+  rw [foldEq_head_real c _ _ hc hk1, foldEq_head_real c _ _ hc hk2, foldEq_head_real c _ _ hc hk3]
+  simp only [Bool.false_eq_true, if_false]
+  rw [decodeQuoted_head_real d c _ hc hq hq2, decodeNonDecimal_no_hash d _ h35]
+  simp [decodeDecimal, hi, hf]
+
+end Pvl
